@@ -72,8 +72,8 @@ impl Cylinder3D {
         let rot_y_degrees = (x * x + y * y).sqrt().atan2(z).to_degrees();
         let rot_z_degrees = y.atan2(x).to_degrees();
 
-        transform *= Transform::rotate_y(rot_y_degrees);
         transform *= Transform::rotate_z(rot_z_degrees);
+        transform *= Transform::rotate_y(rot_y_degrees);
 
         Self::new_transformed(
             radius,
